@@ -41,6 +41,7 @@ type spec struct {
 	Assumptions  []string
 	OutsideClaim []string
 	Encoded      []string // prefixes of functions whose execution is reported
+	MapOrder     []string // functions whose map ranges explore every order
 }
 
 type knownFinding struct {
@@ -196,7 +197,10 @@ func check(id, tier string, seed int64, workers int, verbose bool, only string, 
 		f, _ := os.Create(profPath)
 		pprof.StartCPUProfile(f)
 	}
-	cfg := &symgo.Config{Stubs: sp.Stubs, FreezeProperty: id}
+	cfg := &symgo.Config{Stubs: sp.Stubs, FreezeProperty: id, MapOrderFuncs: map[string]bool{}}
+	for _, f := range sp.MapOrder {
+		cfg.MapOrderFuncs[f] = true
+	}
 	workDir := filepath.Join(verifDir, ".work", id+"-"+tier)
 	os.RemoveAll(workDir)
 
